@@ -147,6 +147,12 @@ static std::string handle(const std::string& op, const Args& a)
         ::codec2_destroy(c);
         return r;
     }
+    if (op == "mod_frame") {     // mod_frame <bitstream> <invert> <sync byte 0> <sync byte 1> bit x368 -> output bytes of output_frame() for ANY frame content
+        bitstream = a.at(0) != 0; invert = a.at(1) != 0;
+        bitstream_t f; for (size_t i = 0; i < 368; ++i) f[i] = int8_t(a.at(4 + i));
+        std::array<uint8_t, 2> sw = {uint8_t(a.at(2)), uint8_t(a.at(3))};
+        return join(bytes_of(capture([&]{ output_frame(sw, f); })));
+    }
     if (op == "mod_preamble") { bitstream = a.at(0) != 0; invert = a.at(1) != 0; return join(bytes_of(capture([&]{ send_preamble(); }))); }
     if (op == "mod_eot") { bitstream = a.at(0) != 0; invert = a.at(1) != 0; return join(bytes_of(capture([&]{ output_eot(); }))); }
     return "bad-op";
